@@ -46,6 +46,7 @@ demo = meta["demo_cmd"]
 demo = re.sub(r"^cd \S+ && ", "", demo)
 demo = re.sub(r"\b(CARGO_TARGET_DIR|CARGO_NET_OFFLINE)=\S+ ", "", demo)
 demo = demo.replace("-j 4", "-j 8")
+demo = re.sub(r"\s{2,}\(.*\)\s*$", "", demo)   # a trailing parenthesised remark is not part of the command
 
 # the change must currently be applied
 rc, _ = sh("git apply --check -R out/patch.diff")
@@ -99,7 +100,7 @@ if verdict:
                                "stable_tests_of_touched_crates_pass": tests_ok, "crates": crates, "ran": log}
     meta["what_it_needs_to_manifest"] = meta.get("needs_to_manifest")
     json.dump(meta, open(os.path.join(dst, "meta.json"), "w"), indent=1)
-if not keep:
+if not keep and verdict:   # a rejected change stays in place for inspection (its deliverables live only in the worktree)
     subprocess.run(["git", "-C", "/repo", "worktree", "remove", "--force", W])
     shutil.rmtree(W, ignore_errors=True)
 sys.exit(0 if verdict else 1)
